@@ -169,6 +169,8 @@ def _put_ensures(S, a, r, post):
 
 mc_put = Contract(f"{F}::MapCacheV.put", params={"self": MapCacheV, "key": MapKey, "value": TObj, "duration": TOpt(TReal)},
                   defaults={"duration": None}, returns=None, trusted=True, pure=False, modifies=("self",),
+                  requires=lambda S, a: {"HybridCache.put takes the computation time, the other containers' put does not "
+                                         "(TypeError otherwise)": a.self.is_hybrid == S.not_(S.is_none(a.duration))},
                   ensures=_put_ensures,
                   note="cache.put (HybridCache takes the computation time as third argument): assumed to leave the key "
                        "resident with the value, max_size >= 1")
